@@ -5,5 +5,9 @@ check("C01", "exploration",
       "Crash / read-storm / deadlock / CPU-and-memory runaway detectors over thousands of PRNG-determined Readline sessions (every bound sequence of every keymap, hostile bytes, EOF/EIO injected at random prefixes). Held = none of the refuting events on the executions produced.",
       TCB, "runtime monitoring: crash/deadlock/spin detectors on real sessions with fault injection", "DESIGN.md 5 C01")
 
-for _p in ["C02","C03","C04","C05","C06","C07","C08","C09","C10","C11","C12","C13","C14","C15","C16","C17","C18","C19","C20"]:
+check("C02", "exploration",
+      "Identity oracle (returned line == typed text, err == nil) over thousands of PRNG-determined printable strings from six rune classes, both modes, all meta settings for ASCII and the UTF-8 settings for non-ASCII, delivered whole / per rune / per byte / at random cuts.",
+      TCB, "runtime monitoring: identity oracle on real Readline sessions", "DESIGN.md 5 C02")
+
+for _p in ["C03","C04","C05","C06","C07","C08","C09","C10","C11","C12","C13","C14","C15","C16","C17","C18","C19","C20"]:
     NOT_YET[_p] = "check under construction in this session (runtime monitor designed in DESIGN.md section 5, not yet registered)"
